@@ -26,6 +26,8 @@ Judge(k) ==
      (* the same clause against what really happened: the sealer sealed none of the last floor(N/2) accepted blocks *)
      /\ Report(k, "C09.NotARecentSealer", ok => hd.signer \notin { sealed[m] : m \in {x \in DOMAIN sealed : x >= hd.number - (Cardinality(validators) \div 2) /\ x < hd.number} })
      /\ Report(k, "C09.SetChangesOnlyAtOffset", validators' # validators => (number' % Epoch = Cardinality(validators) \div 2 /\ validators' = pending'))
+     (* ... and at that offset it does change to it *)
+     /\ Report(k, "C09.SetSwitchesAtOffset", (ok /\ number' % Epoch = Cardinality(validators) \div 2) => validators' = pending')
      /\ Report(k, "C09.PendingOnlyAtEpoch", pending' # pending => (ok /\ number' % Epoch = 0 /\ pending' = hd.extra))
      /\ Report(k, "C09.ConsIsRoot", ok => (cons' = cons \cup {hd.number} /\ number' = hd.number))
      /\ Report(k, "C09.RejectChangesNothing", ~ok => (ln(k).dg.pre = ln(k).dg.post /\ UNCHANGED stateVars))
